@@ -334,6 +334,12 @@ class BaseEvolutionOperations(object):
         for sql_result in sql_results:
             sql.extend(sql_result.to_sql())
 
+            # A renamed table keeps its indexes. Everything generated from
+            # here on must find them tracked under the new table name.
+            for old_db_table, new_db_table in getattr(sql_result,
+                                                      'renamed_tables', []):
+                self.database_state.rename_table(old_db_table, new_db_table)
+
         return sql
 
     def generate_table_op_sql(self, mutator, op, prev_sql_result, prev_op):
@@ -375,6 +381,13 @@ class BaseEvolutionOperations(object):
             evolve_func = getattr(self, 'change_meta_%s' % op['prop_name'])
             sql_result.add(evolve_func(model, op['old_value'],
                                        op['new_value']))
+        elif op_type == 'rename_table':
+            sql_result.add(self.rename_table(op['model'],
+                                             op['old_db_table'],
+                                             op['new_db_table']))
+            sql_result.renamed_tables = [
+                (op['old_db_table'], op['new_db_table']),
+            ]
         elif op_type == 'sql':
             sql_result.add(op['sql'])
         else:
